@@ -29,7 +29,7 @@ func Parse(regex string) (*auto.NFA, error) {
 	p := parser.New(m)
 
 	out, ok := p.Parse(regex)
-	if !ok {
+	if !ok || out.Remaining != nil {
 		return nil, fmt.Errorf("invalid regular expression: %s", regex)
 	}
 
